@@ -1091,6 +1091,7 @@ func (fr *Frame) execBlock(b *ssa.BasicBlock, st *State, edge func(*ssa.BasicBlo
 				cv := c.oblige(fr, st, "cover", fmt.Sprintf("cover/return#%d", c.returnOrdinal(fr.fn, x)), False, nil, "this return is not refuted by the assumptions (vacuity guard)", true)
 				if cv != nil {
 					cv.ExpectSat = true
+					cv.Src = c.eng.sourceLine(x.Pos())
 				}
 			}
 			return true
